@@ -82,7 +82,7 @@ def _calls(prog, b, with_closures=True):
         for c in prog.closures_of.get(b.id, []):
             if (prog.bodies[c].rec.get("parent") or b.id) != x.id:
                 continue
-            visit(prog.bodies[c], cenv.get(c) or {"caps": [], "param": None})
+            visit(prog.bodies[c], cenv.get(c) or cenv.get(prog.bodies[c].rec.get("alias_of")) or {"caps": [], "param": None})
 
     visit(b, None)
     return out
